@@ -18,12 +18,8 @@ pub uninterp spec fn chan_unsent(r: &std::sync::mpsc::Receiver<TaskResult>) -> M
 pub closed spec fn result_matches(data: TaskResult, t: TaskV) -> bool {
     match t {
         TaskV::Scan(d) => data is ScanDir,
-        TaskV::Pre(f, first) => data is Preprocess && (match data->Preprocess_0 {
-            // Pp::run_internal returns its own input file; only a first pass can report dependencies
-            Ok(PpResult::Ok(g)) => g == f,
-            Ok(PpResult::HasDeps(g, _)) => g == f && first,
-            Err(_) => true,
-        }),
+        // the worker sends what `preprocess(shell, f, mode, first, ..)` returned (proved for preprocess in unit U14)
+        TaskV::Pre(f, first) => data is Preprocess && pp_result_matches(data->Preprocess_0, f, first),
     }
 }
 
